@@ -13,6 +13,7 @@ mod oracle;
 mod prog;
 mod rt;
 mod scen;
+mod selftest;
 
 use scen::{Body, Scenario};
 use serde::{Deserialize, Serialize};
@@ -374,7 +375,8 @@ fn run_job(job: &Job) -> JobResult {
     let mut bound = BTreeMap::new();
     bound.insert("preemption_bound".to_string(), serde_json::json!(job.pb));
     bound.insert("threads".to_string(), serde_json::json!(job.sc.threads));
-    bound.insert("ops_per_thread".to_string(), serde_json::json!(job.sc.ops));
+    bound.insert("ops".to_string(), serde_json::json!(job.sc.ops));
+    bound.insert("ops_note".to_string(), serde_json::json!("program steps of the longest thread; a drain step repeats its receive until Disconnected"));
     bound.insert("capacity".to_string(), serde_json::json!(job.sc.cap));
     bound.insert("max_branches".to_string(), serde_json::json!(MAX_BRANCHES));
     bound.insert("max_secs".to_string(), serde_json::json!(job.max_secs));
@@ -417,6 +419,19 @@ fn cmd_run(args: &[String]) -> i32 {
     let only = arg_val(args, "--only");
     let thorough = tier == "thorough";
     let max_secs = arg_val(args, "--max-secs").and_then(|s| s.parse().ok()).unwrap_or(if thorough { 600.0 } else { 20.0 });
+    // the checker checks itself first (vendored loom with patches): a broken checker is a machinery failure
+    if !args.iter().any(|a| a == "--no-selftest") {
+        let exe = std::env::current_exe().expect("current_exe");
+        let st = Command::new(exe).arg("selftest").stdin(Stdio::null()).stdout(Stdio::piped()).stderr(Stdio::null()).output();
+        let ok = matches!(&st, Ok(o) if o.status.success());
+        if !ok {
+            eprintln!("MACHINERY: loomx selftest (litmus tests of the model checker) failed:");
+            if let Ok(o) = st {
+                eprintln!("{}", String::from_utf8_lossy(&o.stdout));
+            }
+            return 2;
+        }
+    }
     let mut jobs: Vec<Job> = Vec::new();
     for sc in scen::all_scenarios() {
         if let Some(p) = &props {
@@ -430,7 +445,9 @@ fn cmd_run(args: &[String]) -> i32 {
             }
         }
         let pb = if thorough { sc.pb_thorough } else { sc.pb_quick };
-        if let Some(pb) = pb {
+        // experiment knob (not used by the driver): raise every bound by N
+        let plus: usize = arg_val(args, "--pb-plus").and_then(|s| s.parse().ok()).unwrap_or(0);
+        if let Some(pb) = pb.map(|p| p + plus) {
             jobs.push(Job { sc, pb, max_secs });
         }
     }
@@ -584,6 +601,14 @@ fn main() {
             };
             run_one(&name, pb, max_secs, &ck)
         }
+        Some("selftest") => {
+            let bad = selftest::run();
+            println!("selftest: {} failed expectation(s)", bad);
+            use std::io::Write;
+            let _ = std::io::stdout().flush();
+            // loom objects of a failed litmus cannot be torn down safely: leave at once
+            std::process::exit(if bad == 0 { 0 } else { 1 });
+        }
         Some("list") => {
             for s in scen::all_scenarios() {
                 println!("{}\tprops={}\tthreads={}\tops={}\tcap={}\tpb={:?}/{:?}", s.name, s.props.join(","), s.threads, s.ops, s.cap, s.pb_quick, s.pb_thorough);
@@ -591,7 +616,7 @@ fn main() {
             0
         }
         _ => {
-            eprintln!("usage: loomx run --tier quick|thorough --out report.json [--props C01,..] [--jobs N] | replay <file> | list");
+            eprintln!("usage: loomx run --tier quick|thorough --out report.json [--props C01,..] [--jobs N] [--only substr] | replay <file> | list | selftest");
             2
         }
     };
